@@ -97,6 +97,7 @@ type Result struct {
 	Preemptions int      // times the scheduler switched away from a thread that could have continued
 	InsideSw    int      // preemptions at a library-internal site (not an explicit harness yield)
 	Choices     int      // scheduling decisions that had more than one option
+	OptCounts   []int    // number of options at each such decision, in order
 	Steps       int
 }
 
@@ -281,6 +282,7 @@ func (s *S) Run() Result {
 		pick := opts[0]
 		if len(opts) > 1 {
 			res.Choices++
+			res.OptCounts = append(res.OptCounts, len(opts))
 			pick = opts[s.next()%len(opts)]
 		}
 		if lastEnabled && pick != last && last.kind != reqStart {
@@ -391,3 +393,35 @@ func (s *S) finish(res Result) Result {
 
 // Clock exposes the logical clock to code running on the scheduler goroutine (setup/postlude stamps).
 func (s *S) Clock() int { s.clock++; return s.clock }
+
+// EnumSchedules enumerates, by stateless re-execution, every schedule with at most
+// `bound` non-zero choices (a non-zero choice = the scheduler does not simply keep
+// running the current thread, i.e. a preemption or a non-default pick). run executes
+// one schedule (choices beyond its end default to 0) and returns the option counts
+// of the decisions that actually occurred; it returns stop=true to abort.
+func EnumSchedules(bound int, run func(schedule []int) (optCounts []int, stop bool)) (runs int) {
+	var rec func(prefix []int, nonzero int) bool
+	rec = func(prefix []int, nonzero int) bool {
+		oc, stop := run(prefix)
+		runs++
+		if stop {
+			return false
+		}
+		if nonzero >= bound {
+			return true
+		}
+		for i := len(prefix); i < len(oc); i++ {
+			for alt := 1; alt < oc[i]; alt++ {
+				next := make([]int, i+1)
+				copy(next, prefix)
+				next[i] = alt
+				if !rec(next, nonzero+1) {
+					return false
+				}
+			}
+		}
+		return true
+	}
+	rec(nil, 0)
+	return runs
+}
